@@ -50,11 +50,17 @@ def _worker_run(item):
 
 
 def load_known(prop):
-    if not os.path.exists(KNOWN):
-        return []
-    with open(KNOWN) as f:
-        data = json.load(f)
-    return [e for e in data.get("findings", []) if e.get("property") == prop]
+    out = []
+    if os.path.exists(KNOWN):
+        with open(KNOWN) as f:
+            data = json.load(f)
+        out.extend(e for e in data.get("findings", []) if e.get("property") == prop)
+    # staging area used while a check is being built; merged into known_findings.json by hand
+    extra = os.path.join(VERIF, "known_findings.d", f"{prop}.json")
+    if os.path.exists(extra):
+        with open(extra) as f:
+            out.extend(e for e in json.load(f) if e.get("property") == prop)
+    return out
 
 
 def match_known(known, sig):
